@@ -109,14 +109,17 @@ Definition adler (l : list N) : N :=
    Gen/RunLifecycleGen.v re-reads both from the source on every run *)
 Definition HTTP_ERR_PREFIX : list N :=
   [112; 114; 111; 118; 105; 100; 101; 114; 32; 104; 116; 116; 112; 32; 101; 114; 114; 111; 114; 58; 32].
+Definition HTTP_ERR_SEP : list N := [58; 32].
 Definition HTTP_ERR_CAP : option N := None.
+Definition cap_eqb (a b : option N) : bool :=
+  match a, b with None, None => true | Some x, Some y => x =? y | _, _ => false end.
 
 Definition http_cut (cap : option N) (l : list N) : list N :=
   match cap with None => l | Some n => cut_floor n l end.
 
 (* status = the bytes of `{status}` (code and canonical reason), body = shape of the response body *)
 Definition http_err_text (status : list N) (body : list (N * N)) : list N :=
-  HTTP_ERR_PREFIX ++ status ++ [58; 32] ++ http_cut HTTP_ERR_CAP (seg_bytes body).
+  HTTP_ERR_PREFIX ++ status ++ HTTP_ERR_SEP ++ http_cut HTTP_ERR_CAP (seg_bytes body).
 
 (* ---------- tools (ToolRunner::run) ---------- *)
 Inductive tool_res :=
@@ -349,6 +352,63 @@ Inductive Interleave : list (list ev) -> list ev -> Prop :=
 | IL_nil : Interleave [] []
 | IL_cons : forall a ls m l, Interleave ls m -> Merge a m l -> Interleave (a :: ls) l.
 
+(* ---------- S6: the one-run-per-session guard of SessionEngine::spawn_session under concurrent inputs ---------- *)
+(* runner.rs spawn_session: `if handle.started.swap(true, SeqCst) { return false; }  …  tokio::spawn(run_session(..)); true`.
+   n callers (actors) hold clones of one SessionHandle.  The guard kind is a parameter:
+     GAtomicRmw     one atomic read-modify-write (swap / compare_exchange / fetch_or): test and set are ONE step;
+     GCheckThenSet  `load` … spawn … `store(true)`: the test is one step, spawn-and-set a later one.
+   A schedule is the list of actor numbers in the order in which they take their next step. *)
+Inductive guard_kind := GAtomicRmw | GCheckThenSet.
+Definition guard_atomic (gk : guard_kind) : bool := match gk with GAtomicRmw => true | GCheckThenSet => false end.
+Definition guard_kind_eqb (a b : guard_kind) : bool :=
+  match a, b with GAtomicRmw, GAtomicRmw | GCheckThenSet, GCheckThenSet => true | _, _ => false end.
+(* what the code has today; Gen/RunLifecycleGen.v re-reads it from runner.rs on every run *)
+Definition GUARD_KIND : guard_kind := GAtomicRmw.
+
+Inductive pc := PcInit | PcPassed | PcAccepted | PcRefused.
+
+Fixpoint upd {A} (l : list A) (i : nat) (x : A) : list A :=
+  match l, i with
+  | [], _ => []
+  | _ :: r, O => x :: r
+  | y :: r, S j => y :: upd r j x
+  end.
+
+(* state: the `started` flag and every actor's program counter *)
+Definition guard_step (gk : guard_kind) (st : bool * list pc) (a : nat) : bool * list pc :=
+  match nth_error (snd st) a with
+  | Some PcInit =>
+      if fst st then (fst st, upd (snd st) a PcRefused)                 (* flag already set: `return false` *)
+      else match gk with
+           | GAtomicRmw => (true, upd (snd st) a PcAccepted)            (* swap saw false and set true: spawns *)
+           | GCheckThenSet => (false, upd (snd st) a PcPassed)          (* load saw false; nothing written yet *)
+           end
+  | Some PcPassed => (true, upd (snd st) a PcAccepted)                  (* tokio::spawn(run_session); store(true) *)
+  | _ => st                                                             (* returned already / no such actor *)
+  end.
+
+Definition run_guard (gk : guard_kind) (n : nat) (sched : list nat) : bool * list pc :=
+  fold_left (guard_step gk) sched (false, repeat PcInit n).
+
+(* the inputs whose spawn_session call returned true: each of them is a run_session task on the session *)
+Fixpoint accepted_inputs {A} (pcs : list pc) (inps : list A) : list A :=
+  match pcs, inps with
+  | p :: ps, i :: r => (match p with PcAccepted => [i] | _ => [] end) ++ accepted_inputs ps r
+  | _, _ => []
+  end.
+
+(* the schedule the harness forces through the hook point session.spawn.guarded: every actor takes its first
+   step (up to the point, or to its `return false`), then every actor is released *)
+Definition stepped_sched (n : nat) : list nat := seq 0 n ++ seq 0 n.
+
+Definition race_accepted (gk : guard_kind) (n : N) : N :=
+  nlen (accepted_inputs (snd (run_guard gk (N.to_nat n) (stepped_sched (N.to_nat n)))) (repeat tt (N.to_nat n))).
+
+(* single exit of run_session (session.rs, after the `match action`): the order of its closing steps;
+   0 drain the kernel session unless skip_runtime_loop, 1 lock the frame buffer, 2 reason = LAST session_ended of the
+   buffer, 3 write_snapshot, 4 append_run_ended(reason) when linked.  Re-read from the source by the extractor. *)
+Definition EXIT_ORDER : list N := [0; 1; 2; 3; 4].
+
 (* ---------- views of the log ---------- *)
 Definition sess_stream (sid : N) (l : list ev) : list (N * sk) :=
   flat_map (fun e => match e with ES s q k => if s =? sid then [(q, k)] else [] | EC _ => [] end) l.
@@ -454,7 +514,8 @@ Definition enc_evs (l : list ev) : list N := nlen l :: flat_map enc_ev l.
    filtered on that activity's ids, in file order) *)
 Record case := {
   k_acts : list act;
-  k_expect : list (list N) }.
+  k_expect : list (list N);
+  k_races : list (N * N) }.   (* stepped concurrent inputs: (number of senders, number of accepted inputs) per round *)
 
 Fixpoint all2 {A B} (f : A -> B -> bool) (a : list A) (b : list B) : bool :=
   match a, b with
@@ -464,7 +525,8 @@ Fixpoint all2 {A B} (f : A -> B -> bool) (a : list A) (b : list B) : bool :=
   end.
 
 Definition check_case (c : case) : bool :=
-  all2 (fun a e => lN_eqb (enc_evs (act_events all_ok a)) e) (k_acts c) (k_expect c).
+  all2 (fun a e => lN_eqb (enc_evs (act_events all_ok a)) e) (k_acts c) (k_expect c)
+  && forallb (fun r : N * N => race_accepted GUARD_KIND (fst r) =? snd r) (k_races c).
 
 Definition model_obs (c : case) : list N :=
   flat_map (fun a => enc_evs (act_events all_ok a)) (k_acts c).
